@@ -37,6 +37,7 @@
 -/
 import QV.Properties.C01
 import QV.Spec.MsgDecode
+import QV.Proofs.WriterSafe2
 
 namespace QV.C02
 open QV QV.Writer QV.Server QV.Reader QV.ServerSafety QV.Spec
@@ -161,6 +162,41 @@ theorem C02_decodes_partial (W : WriterSafe) (D : WriterDecodes W) (cfg : Cfg)
   obtain ⟨w, mac, hi, hf⟩ := C02_response_is_finish W cfg hcfg tr now bufLen req b henv h
   obtain ⟨d, hd, q1, q2, q3, q4, body, hb⟩ := D.finish_decodes w macFn b mac hi (macLenOK_server hmacLenOK) hf
   refine ⟨d, w, hd, hi, q1, q2, q3, q4, fun ht => ?_, fun ht he => ?_⟩
+  · have : (d.ar.map (·.ty)).getLast? = some 250 := by
+      rw [hb]; simp [ht]
+    simpa [List.getLast?_map] using this
+  · have hn : w.tsig.isSome = false := by simpa using ht
+    have : (d.ar.map (·.ty)).getLast? = some 41 := by
+      rw [hb]; simp [hn, he]
+    simpa [List.getLast?_map] using this
+
+/-! ### the writer hypothesis discharged
+
+  `QV.Writer.finish_decodes` (lean/QV/Proofs/WriterDecodes.lean) is the writer's refinement theorem in
+  the form C02 needs, proved for every compression mode from the structural layout invariant `SLay`
+  (every question and record starts with a name the independent decoder reads, RDLENGTH leads to the
+  next record, the counts are those of the items) — which is part of the invariant of the second
+  interface instance `QV.Writer.writerSafeL`, together with "the limit is at most 65535" (a DNS
+  message is at most 65535 octets; the server asks for 65535 over TCP, 512 or the requestor's 16-bit
+  payload size over UDP: `Call.Pre (.setLimit v) = v ≤ 65535`). With C12 (b) — a finished message is
+  within the limit — no RDLENGTH field can wrap. -/
+
+/-- **every response decodes completely** under the independent decoder, counts as the writer kept
+    them, message ending exactly after the last record; the additional section ends with OPT (iff
+    EDNS) then TSIG (iff TSIG) — no hypothesis on the writer, none on the size -/
+theorem C02_decodes (cfg : Cfg) (hcfg : CfgWF cfg) (tr : Transport) (now bufLen : Nat)
+    (req b : Bytes) (henv : EnvOK cfg tr now bufLen req)
+    (h : handleMessage cfg tr now bufLen req = .ok (some b)) :
+    ∃ d w, specDecodeMsg b = some d ∧ Writer.I w ∧ b.size ≤ 65535 ∧
+      d.questions.length = w.qdcount ∧ d.an.length = w.ancount ∧ d.ns.length = w.nscount ∧
+      d.ar.length = w.arcount ∧
+      (w.tsig.isSome → (d.ar.getLast?.map (·.ty)) = some 250) ∧
+      (w.tsig.isNone → w.edns.isSome → (d.ar.getLast?.map (·.ty)) = some 41) := by
+  obtain ⟨w, mac, hi, hf⟩ := C02_response_is_finish Writer.writerSafeL cfg hcfg tr now bufLen req b henv h
+  have hsz : b.size ≤ 65535 :=
+    Nat.le_trans (Writer.finish_size_le_limit macFn w hi.1.inv b mac hf) hi.2.2
+  obtain ⟨d, hd, q1, q2, q3, q4, body, hb⟩ := Writer.finish_decodes macFn w hi.1 hi.2.1 b mac hf hsz
+  refine ⟨d, w, hd, hi.1, hsz, q1, q2, q3, q4, fun ht => ?_, fun ht he => ?_⟩
   · have : (d.ar.map (·.ty)).getLast? = some 250 := by
       rw [hb]; simp [ht]
     simpa [List.getLast?_map] using this
